@@ -136,6 +136,7 @@ class TimeKeeper:
 
     def reset(self) -> None:
         """Reset the clock"""
+        self.step = 0
         self.time = self.start_time
 
     def nctime(self, unit: str = "s") -> float:
